@@ -12,7 +12,10 @@ MANIFEST = {
             "filter, per-order eigen-decompositions as contract parameters, scaling, selection/sorting/pairing, azimuthal tables, "
             "polar synthesis, annulus mask): piston_orth is orthogonal for every nr, order-0 modes have zero mean, the polar Gram "
             "matrix is the identity, returned variances are non-increasing with equal cos/sin pairs, -1/2 x double pupil average "
-            "of K_i D K_j = diag(variances) for npp = nth and azimuthal orders >= 1 (any structure function), pupil = annulus "
+            "of K_i D K_j = diag(variances) for npp = nth and ALL azimuthal orders, the piston-filtered order 0 included (any "
+            "structure function), distinct positions of the returned basis are distinct (order, radial index) pairs, hence the "
+            "basis as returned (positions of oind) is orthonormal and diagonalises; the first two functions are one cos/sin pair "
+            "of equal variance whenever the largest eigenvalue is of order >= 1 (R(r) sin/cos theta when of order 1); pupil = annulus "
             "indicator, masked rendering vanishes outside; for all nr, ri, nfunc and every eigh/argsort output meeting the "
             "stated contract. The constants d, fnorm, fktom and the "
             "structure function are regenerated from the source each run (translator T1); the model is executed at binary64 "
@@ -20,8 +23,8 @@ MANIFEST = {
             "failing inputs.",
     "note": "Trusted: Lean kernel + propext/Classical.choice/Quot.sound; Mathlib's Real.sqrt/cos/sin/pi; numpy.linalg.eigh, "
             "numpy.argsort, numpy.fft.fft and scipy map_coordinates are contract parameters (eigh/argsort contracts re-checked "
-            "numerically on every instance run). Not proved: the diagonalisation identity for order-0 functions, distinctness of the selected (o,k) pairs, "
-            "positivity of the selected eigenvalues and tip/tilt-first (facts "
+            "numerically on every instance run). Not proved: positivity of the selected eigenvalues (which is what keeps the "
+            "piston entry out of the selection) and that the largest eigenvalue is of order 1 (facts "
             "about the Kolmogorov spectrum), accuracy of the polar->Cartesian resampling, the order-count loop's adequacy "
             "(all evaluated by the oracle only).",
     "technique": "Lean 4 proof over a hand-written model with translated constants + differential correspondence at binary64 "
@@ -30,7 +33,13 @@ MANIFEST = {
 REQUIRED = ["pupil_is_annulus", "pupil_zero_or_one", "masked_zero_outside", "masked_id_inside", "evals_sorted", "pair_adjacent",
             "piston_orth_orthogonal", "piston_orth_columns", "freq_oordAt", "order0_zero_mean", "piston_variance_zero",
             "higher_order_zero_mean", "polar_orthonormal", "quad_of_eig", "kernel_eq", "diagonalises_partial",
-            "halfDist_periodic", "halfDist_even", "Dent_eq", "rdftRe_eq", "azimuthal_block", "diagonalises"]
+            "halfDist_periodic", "halfDist_even", "Dent_eq", "rdftRe_eq", "azimuthal_block", "diagonalises",
+            # round 2
+            "modes_distinct", "modes_distinct_flat", "first_pair_equal", "tip_tilt_first_partial",
+            "Dent_symm", "quad_split", "azimuthal_block0", "azimuthal_block0'", "rdft_eq_kernel",
+            "diagonalises_order0_same", "diagonalises_order0_cross", "diagonalises_order0", "diagonalises_all",
+            "returned_basis_diagonalises", "returned_basis_orthonormal", "piston_not_selected_partial",
+            "returned_basis_zero_mean"]
 T1_NAMES = ["kl_radii_d", "kl_fnorm", "kl_fktom", "kl_stf_kolmogorov"]
 
 GRAM_TOL = 1e-9        # observed 3e-15 on the clean tree; every mutation considered moves it by >= 1e-3
@@ -456,12 +465,11 @@ def run(chk):
         "numpy.argsort(-evs) returns a permutation ordering the table non-increasingly (theorem hypothesis; checked per instance)",
         "numpy.fft.fft of a real sequence has real part sum_c x_c cos(2 pi p c / n) (model definition; exercised by the "
         "eigh-input correspondence)",
-        "NOT PROVED: diagonalisation identity when one of the two functions has azimuthal order 0 (piston-filtered block); "
-        "proved for all orders >= 1 (theorem diagonalises); oracle covers order 0 numerically",
-        "NOT PROVED: modes_distinct (distinct positions of the returned basis are distinct (o,k) pairs when argsort returns a "
-        "permutation); pair_adjacent proves the structural half; the oracle's Gram matrix and pair checks cover it",
-        "NOT PROVED: every selected eigenvalue is positive and tip/tilt come first (facts about the Kolmogorov kernel's spectrum; "
-        "oracle only)",
+        "numpy.linalg.eigh on the filtered order-0 block: M V = V diag(E) with orthonormal V (hypothesis EigT0 of "
+        "diagonalises_order0 / diagonalises_all; checked numerically on every instance of the correspondence run)",
+        "NOT PROVED: every selected eigenvalue is positive - hence the piston entry (flat index nr-1, recorded variance 0) is never "
+        "selected, which is the hypothesis `x != nr-1` of returned_basis_diagonalises - and the largest eigenvalue belongs to "
+        "order 1 (hypothesis of tip_tilt_first_partial); facts about the Kolmogorov kernel's spectrum; oracle only",
         "NOT PROVED: the order loop computes enough orders for the nfunc largest eigenvalues (monotone decay of the spectrum with "
         "azimuthal order; oracle only)",
         "NOT PROVED: accuracy of the polar->Cartesian resampling by map_coordinates (oracle: value within the range of the "
